@@ -72,6 +72,19 @@ func NewKey(name string, seed int64) Key {
 	return Key{Name: name, SKey: sk, VKey: vk, Signer: s, Verif: v}
 }
 
+// KeyFromStrings builds a Key from a note signer / verifier key pair.
+func KeyFromStrings(sk, vk string) Key {
+	s, err := note.NewSigner(sk)
+	if err != nil {
+		panic(err)
+	}
+	v, err := note.NewVerifier(vk)
+	if err != nil {
+		panic(err)
+	}
+	return Key{Name: v.Name(), SKey: sk, VKey: vk, Signer: s, Verif: v}
+}
+
 // WitKey is a witness key in both the legacy and cosignature/v1 flavours,
 // derived from one secret as cmd/omniwitness does.
 type WitKey struct {
